@@ -13,7 +13,7 @@ RULE = (
     "KNNSubgraph on generic / lattice / positive / all-duplicate feature data with a drawn non-negative metric (asymmetric divergences included), and on pre-computed matrices with 1-4 weight levels "
     "(heavy ties), tie-free or float weights; create_arcs with k in 1..n+2, then (k <= n-1) calculate_pdf on the fresh arcs and eliminate_maxima_height for heights {-1, 0, small, > max density}. "
     "Oracle from the statement: neighbour lists (length min(k,n-1), distinct, no self, ascending, multiset of the smallest distances - tie-aware), radius, per-rank maxima, density bound with the 1e-5 fallback; "
-    "constant = 2/9 bound, pdf = sum exp(-d/constant)/(k+1), stored min/max, affine map (min->1, max->MAX_DENSITY up to rounding, all equal -> MAX_DENSITY, order preserved), cost = density-1 exactly, "
+    "constant = 2/9 of the bound in force (the one left by create_arcs, or the rank-k maximum installed through the density attribute before an estimate over k < arcs-k neighbours), pdf = sum exp(-d/constant)/(k+1), stored min/max, affine map (min->1, max->MAX_DENSITY up to rounding, all equal -> MAX_DENSITY, order preserved), cost = density-1 exactly, "
     "heights: cost = max(density-h, 0) / unchanged. non-trivial: a tie at some sample's k-th distance, or k >= 2 with >= 3 distinct densities; distinct by case hash"
 )
 ASSUMPTIONS = ["value comparison of mapped densities uses a conditioning-aware tolerance (skipped, and counted, when (max-min) of the pdf is below 1e-9 of its magnitude)"]
@@ -143,6 +143,12 @@ def check_case(case):
         # density over the k' <= k nearest of arcs created with k (the pattern of the unsupervised k search)
         k = case["k_pdf"]
         cl.append("pdf_k_smaller_than_arcs" if k < k_arcs else "pdf_k_equals_arcs")
+        if case["n"] % 3 != 0 and maxd[k - 1] >= 0.00001:
+            # the density bound of rank k installed through the public attribute before the estimate (what the unsupervised k search does):
+            # the recorded constant is 2/9 of the bound in force
+            sg.density = maxd[k - 1]
+            exp_bound = maxd[k - 1]
+            cl.append("bound_set_to_rank_k")
     if k <= n - 1:
         adjs = [[int(a) for a in sg.nodes[i].adjacency] for i in range(n)]
         if case["n"] % 2 == 0 and k_arcs >= 2:
